@@ -21,7 +21,7 @@ package tchannel
 // them are on fault paths (timeout, cancellation, malformed or unexpected
 // frame, full queue, connection failure), which the property allows.
 // Trusted in this file: Relayer.Relay (dispatcher only), InboundCall.readMethod
-// (nil-safety facts only), and the `C12io` views used inside the two I/O loops.
+// (nil-safety facts only), and the one `C12io` view used inside the read loop.
 
 // Completing the response must not give back (or touch) frames that the
 // request side of the call still refers to: its reader's current chunks alias
@@ -65,54 +65,28 @@ package tchannel
 //@   property C12
 
 // ---------------------------------------------------------------------------
-// The two I/O loops. Engine limitation that shapes this section: a loop whose
-// body calls a `modifies all/allbut` function forgets EVERYTHING at the loop
-// head (callee keep-lists are not consulted there), including the loop's own
-// local variable `c` (a closure captures it, so the engine keeps it in a heap
-// cell). From the second iteration on, `c` is an arbitrary connection and only
-// structure invariants are known of it. The ownership argument does not need
-// more (tokens are per frame, the channel contracts are per field name), but
-// the SAFETY preconditions that six callees put on the connection's
-// configuration (clock, logger, health-check handles, exchange tables) cannot
-// be re-established. They are ASSUMED inside the two loops, by trusted views
-// scoped to the tag `C12io` that only readFrames and writeFrames carry (so no
-// other call site loses a check). Each view restates the VERIFIED ownership
-// postcondition of the primary contract; only the dropped preconditions are
-// assumed. They are invariants of objects shared with other goroutines,
-// established by newConnection / callOnActive and never reassigned (ConnErrOK,
-// timeNow, DispatchOK) or preserved by every verified writer (MexSetFull:
-// addExchange / deleteExchange prove old(MexSetInv) ==> MexSetInv).
+// The two I/O loops. A loop whose body calls a `modifies all/allbut` function
+// forgets everything at the loop head, including the loop's own local variable
+// `c` (a closure captures it, so the engine keeps it in a heap cell): from the
+// second iteration on `c` is an arbitrary connection and only STRUCTURE
+// INVARIANTS are known of it. That is enough for every callee but one: the
+// configuration facts they require (logger, clock, stats reporter, frame pool,
+// base context, health-check handles, exchange tables) are structure invariants
+// of Connection / messageExchangeSet (verif_contracts_inv.go) and the table
+// invariant comes with the exchange-set monitor. (Five trusted `C12io` views
+// that used to assume those facts are gone.)
+// Still ASSUMED, by one trusted view scoped to the tag `C12io` that only
+// readFrames carries: the relay dispatcher's preconditions that are scope
+// restrictions or ghost definitions of OTHER properties' contracts (the frame
+// is not for a relay-local handler; receivedTTL/relayMaxOf ghosts; c.relay.conn
+// == c). The view restates the VERIFIED ownership postcondition of the primary
+// contract; only those preconditions are dropped.
 // ---------------------------------------------------------------------------
-//@ func (c *Connection) handleFrameNoRelay(frame *Frame) (release bool)
-//@   trusted
-//@   requires FrameFull(frame) && frame.Header.size >= 16
-//@   modifies all
-//@   ensures release ==> own(frame) == 1
-//@   property C12io
 //@ func (c *Connection) handleFrameRelay(frame *Frame) (release bool)
 //@   trusted
 //@   requires FrameFull(frame) && frame.Header.size >= 16
 //@   modifies all
 //@   ensures release ==> own(frame) == 1
-//@   property C12io
-//@ func (c *Connection) updateLastActivityRead(frame *Frame)
-//@   trusted
-//@   requires own(frame) == 1
-//@   modifies allbut own, Frame, bytes
-//@   property C12io
-//@ func (c *Connection) updateLastActivityWrite(frame *Frame)
-//@   trusted
-//@   requires own(frame) == 1
-//@   modifies allbut own, Frame, bytes
-//@   property C12io
-//@ func (c *Connection) connectionError(site string, err error) (out error)
-//@   trusted
-//@   requires err != nil
-//@   modifies allbut own
-//@   property C12io
-//@ func (c *Connection) stopHealthCheck()
-//@   trusted
-//@   modifies nothing
 //@   property C12io
 
 // The socket of a connection is set once, by newConnection.
@@ -129,7 +103,7 @@ package tchannel
 // the frame taken from the queue in an iteration was released in it)
 //@   label frame-taken-from-the-queue-is-released-in-the-same-iteration
 //@   loop 0 invariant NoFrameLeft()
-//@   property C12 C12io
+//@   property C12
 
 // The reader loop: every frame it takes from the pool is, on every path, either
 // released exactly once by the loop itself (body read failure, handler asked
